@@ -634,14 +634,18 @@ impl ConsumerGroup {
         let pending = self.pending.read().unwrap();
         let consumers = self.consumers.read().unwrap();
         let mut out = format!("group {:?} cursor={} pel=[", self.name, rel(&self.last_delivered_id.lock().unwrap()));
+        // every stored timestamp is part of the state, as its age in ms (a change that reads another of them
+        // gives two otherwise equal states different futures)
+        let now = SystemTime::now();
+        let age = |t: &SystemTime| now.duration_since(*t).map(|d| d.as_millis() as i128).unwrap_or(-1);
         for (id, e) in pending.entries_by_id.iter() {
-            out.push_str(&format!("({} {:?} n={})", rel(id), e.consumer, e.delivery_count));
+            out.push_str(&format!("({} {:?} n={} first={} last={})", rel(id), e.consumer, e.delivery_count, age(&e.delivered_at), age(&e.last_delivery)));
         }
         out.push_str("] consumers=[");
         let mut names: Vec<&String> = consumers.keys().collect();
         names.sort();
         for n in names {
-            out.push_str(&format!("({:?} pending={})", n, consumers[n].pending_count));
+            out.push_str(&format!("({:?} pending={} seen={})", n, consumers[n].pending_count, age(&consumers[n].last_seen)));
         }
         out.push_str(&format!("] total={}", *self.total_pending.lock().unwrap()));
         out
